@@ -1,5 +1,5 @@
 """Texts for MANIFEST.json. A property is listed in CLAIMED only once its check is silent on the unchanged tree."""
-HOOK_COMMITS = ['b792287', '8f86a84', '459984f', 'fd5a20d', '85697c7', 'bb47e22', '702fe54', '9bdec69', 'e1cb83e']
+HOOK_COMMITS = ['b792287', '8f86a84', '459984f', 'fd5a20d', '85697c7', 'bb47e22', '702fe54', '9bdec69', 'e1cb83e', '7918ed9']
 NOTES = "All checks: ./check <id> --tier quick|thorough. Lean theorems are about hand-written models; the correspondence run ties them to /repo's working tree on every run. See DESIGN.md."
 NOTE = ("theorem about a hand-written Lean model; tied to /repo's working tree by the differential correspondence run of the same check "
         "(its reach is its generators' reach); Lean kernel + propext/Classical.choice/Quot.sound only; harness + cfg(redb_verif) hooks trusted")
